@@ -185,6 +185,62 @@ theorem step_evolves (P : Program) (F : Flags) (c c' : Config) (l : Label) (h : 
       exact ⟨y, by simp, .loc F _ _ _ hl⟩
     · exact ⟨x, by rw [act?_set_other _ _ _ _ hb, act?_applyEff, hx], .same rfl⟩
 
+/-- the same with the context kept: which label, which observation -/
+inductive EvolvesIn (F : Flags) (c : Config) (l : Label) (b : Nat) (x x' : Act) : Prop
+  | same : x' = x → (b ≠ l.act ∨ ∃ k t, l.ev = .enter k t) → EvolvesIn F c l b x x'
+  | loc (eff : Eff) : b = l.act → (∀ k t, l.ev ≠ .enter k t) →
+      stepLocal F (obsOf F c b x) x l.ev = some (x', eff) → EvolvesIn F c l b x x'
+  | kid (slot : Nat) (kind : Kind) (t : Nat) : l.ev = .enter kind t → x' = { x with kids := (slot, l.act) :: x.kids } →
+      x.kids.lookup slot = none → Gains c l.act kind t b x slot → EvolvesIn F c l b x x'
+
+theorem step_evolvesIn (P : Program) (F : Flags) (c c' : Config) (l : Label) (h : step P F c l = some c')
+    (b : Nat) (x : Act) (hx : c.act? b = some x) : ∃ x', c'.act? b = some x' ∧ EvolvesIn F c l b x x' := by
+  rcases step_cases P F c c' l h with ⟨k, t, hev, hen⟩ | ⟨hne, x0, y, eff, hx0, hl, rfl⟩
+  · obtain ⟨hnone, _, _, hk⟩ := enterAct_kind P F c c' l.act k t hen
+    have hba : b ≠ l.act := by intro e; subst e; rw [hx] at hnone; cases hnone
+    rcases hk with ⟨_, _, hoth⟩ | ⟨p, px, slot, _, hpx, hslot, hg, hp', hoth⟩
+    · exact ⟨x, by rw [hoth b hba, hx], .same rfl (.inl hba)⟩
+    · by_cases hbp : b = p
+      · subst hbp
+        rw [hx] at hpx; cases hpx
+        exact ⟨_, hp', .kid slot k t hev rfl hslot hg⟩
+      · exact ⟨x, by rw [hoth b hba hbp, hx], .same rfl (.inl hba)⟩
+  · by_cases hb : b = l.act
+    · subst hb
+      rw [hx] at hx0; cases hx0
+      exact ⟨y, by simp, .loc eff rfl hne hl⟩
+    · exact ⟨x, by rw [act?_set_other _ _ _ _ hb, act?_applyEff, hx], .same rfl (.inl hb)⟩
+
+theorem EvolvesIn.evolves {F : Flags} {c : Config} {l : Label} {b : Nat} {x x' : Act}
+    (h : EvolvesIn F c l b x x') : Evolves x x' := by
+  cases h with
+  | same e _ => exact .same e
+  | loc eff _ _ hl => exact .loc F _ _ eff hl
+  | kid slot kind t _ e hs hg =>
+    refine .kid slot l.act e hs ?_
+    cases hg with
+    | dep j _ _ h3 _ => exact .inl h3
+    | call i d _ _ h3 _ => exact .inr ⟨i, d, h3⟩
+
+/-- an activation that is new after a step is the fresh activation of an `enter` label -/
+theorem step_new (P : Program) (F : Flags) (c c' : Config) (l : Label) (h : step P F c l = some c')
+    (a : Nat) (x' : Act) (hn : c.act? a = none) (hx' : c'.act? a = some x') :
+    ∃ kind t, l.ev = .enter kind t ∧ a = l.act ∧ x' = freshAct P F c kind t := by
+  rcases step_cases P F c c' l h with ⟨k, t, hev, hen⟩ | ⟨_, x0, y, eff, hx0, hl, rfl⟩
+  · obtain ⟨_, hnew, _, hk⟩ := enterAct_kind P F c c' l.act k t hen
+    by_cases ha : a = l.act
+    · subst ha; rw [hnew] at hx'; exact ⟨k, t, hev, rfl, (Option.some.inj hx').symm⟩
+    · exfalso
+      rcases hk with ⟨_, _, hoth⟩ | ⟨p, px, slot, _, hpx, _, _, hp', hoth⟩
+      · rw [hoth a ha, hn] at hx'; cases hx'
+      · by_cases hap : a = p
+        · subst hap; rw [hn] at hpx; cases hpx
+        · rw [hoth a ha hap, hn] at hx'; cases hx'
+  · exfalso
+    by_cases ha : a = l.act
+    · subst ha; rw [hn] at hx0; cases hx0
+    · rw [act?_set_other _ _ _ _ ha, act?_applyEff, hn] at hx'; cases hx'
+
 theorem Evolves.done {x x' : Act} (h : Evolves x x') (hd : x.phase = .done) : x' = x := by
   cases h with
   | same e => exact e
